@@ -30,6 +30,31 @@ def gen_plans(rng, n):
     return out
 
 
+def gen_storeplans(rng, n):
+    """Store-level plans (the level at which a delete reports whether it removed something): several goroutines
+    writing and deleting the same one or two keys directly on the running server's Store"""
+    out = []
+    for _ in range(n):
+        procs = rng.choice([3, 4, 5, 6])
+        nkeys = rng.choice([1, 1, 2])
+        plan = []
+        for _p in range(procs):
+            ops = []
+            for _i in range(rng.randint(3, 5)):
+                r = rng.random()
+                k = rng.randint(1, nkeys)
+                if r < 0.35:
+                    ops.append({"op": "swrite", "k": k, "c": "c1", "d": rng.choice(["a", "b", "L"]), "m": "m0"})
+                elif r < 0.8:
+                    ops.append({"op": "sdelete", "k": k, "c": "c1", "d": "", "m": ""})
+                else:
+                    ops.append({"op": "sread", "k": k, "c": "c1", "d": "", "m": ""})
+            plan.append(ops)
+        out.append({"ev": "reset", "vttl": "", "procs": procs, "keys": list(range(1, nkeys + 1)), "cookies": ["c1"],
+                    "pre": [{"op": "swrite", "k": 1, "c": "c1", "d": "a", "m": "m0"}], "plan": plan})
+    return out
+
+
 def gen_readstorms(rng, n):
     """several goroutines re-reading large blobs of equal size but different content, a writer among them:
     a read must return the blob of ITS key (buffers shared between concurrent reads would show here)"""
@@ -101,6 +126,8 @@ def run(ctx):
                 for r in gen_plans(rng, n):
                     f.write(json.dumps(r) + "\n")
                 for r in gen_readstorms(rng, n // 2):
+                    f.write(json.dumps(r) + "\n")
+                for r in gen_storeplans(rng, n):
                     f.write(json.dumps(r) + "\n")
         # the race detector's reports are recorded, not judged (C38 does not state race freedom; the pinned tree
         # has a read/write race on Volume.Version() in every run): keep the driver's exit code at 0
